@@ -136,7 +136,9 @@ class Ctx(object):
         return self.st.box(PureArr(shape, fn, kind))
 
     def obj(self, cls, **attrs):
-        return self.st.alloc_obj(cls, dict((k, self.st.box(v)) for k, v in attrs.items()))
+        ref = self.st.alloc_obj(cls, dict((k, self.st.box(v)) for k, v in attrs.items()))
+        self.st.tags.add(('setup_obj', ref.addr))       # built by a contract set-up, not by the class's __init__
+        return ref
 
     def list(self, items):
         return self.st.alloc_list(items)
@@ -493,7 +495,13 @@ class Contract(object):
                         continue
                     a, b = cell.attrs.get(k, _MISSING), new.attrs.get(k, _MISSING)
                     if not _same_value(a, b):
-                        fs.oblige('%s/frame.%s.%s' % (sn, label, k), False, kind='frame')
+                        if a is _MISSING:
+                            # an attribute the contract's abstract state does not know: the frame speaks
+                            # about the known state only, so this is "contract needs updating", not a violation
+                            from .sym import Stale
+                            fs.oblige('%s/frame.%s.%s' % (sn, label, k), Stale('the code stores attribute %r which the contract of %s does not describe' % (k, sn)), kind='frame')
+                        else:
+                            fs.oblige('%s/frame.%s.%s' % (sn, label, k), False, kind='frame')
             elif kind == 'list':
                 if len(cell.items) != len(new.items) or any(not _same_value(a, b) for a, b in zip(cell.items, new.items)):
                     fs.oblige('%s/frame.%s' % (sn, label), False, kind='frame')
